@@ -46,6 +46,10 @@ SNIPPETS = [
     ("def f(g):\n    d = g[:, 0]\n    d = d.contiguous().mul_(0.25)\n    return d\n", {('inplace', 'param')}),
     ("def f(x):\n    y = x.float()\n    y += 1\n    return y\n", {('inplace', 'param')}),
     ("def f(x):\n    y = x.clone().mul_(2)\n    return y\n", {('inplace', 'fresh')}),
+    # a dtype written into the source (not taken from an input) - as a creation dtype or as the accumulation dtype of any other call
+    ("def f(x):\n    return torch.zeros(3, dtype=torch.float)\n", {('create', 'fixed_dtype')}),
+    ("def f(x):\n    return torch.zeros(3, dtype=x.dtype)\n", {('create', 'dtype')}),
+    ("def f(x):\n    r = torch.sum(x**2, dim=2, keepdim=True, dtype=torch.float64)\n    return r\n", {('cast', 'fixed')}),
 ]
 
 def analyse_snippet(src):
